@@ -454,6 +454,13 @@ __wrap_close(int fd)
 	if (f && f->err) {
 		ret = -1;
 		e = f->err;
+	} else if (sim_cfg.close_eintr_pct > 0) {
+		/* interrupted close: on Linux the descriptor is gone all the same */
+		uint64_t s = sim_cfg.clock_seed ^ ((uint64_t) k * 0x9E3779B97F4A7C15ULL) ^ 0xC105EULL;
+		if ((int) (sim_rand(&s) % 100) < sim_cfg.close_eintr_pct) {
+			ret = -1;
+			e = EINTR;
+		}
 	}
 	end_step(k, "close", path, fd, ret, e);
 	errno = e;
